@@ -109,6 +109,8 @@ def subspecs(spec, depth=0):
 def type_labels(spec):
     lb = set()
     lb.add("root_" + spec["k"])
+    if spec.get("big"):
+        lb.add("big_case")
     maxdepth = 0
     for s, d in subspecs(spec):
         maxdepth = max(maxdepth, d)
@@ -181,7 +183,26 @@ class Cfg:
         self.allow_nd = True
         self.roots = ("struct", "struct", "struct", "array", "array", "array", "unionref", "unionref", "string")
         self.scalars = SCALARS
+        # "big" cases (one in big_weight when big_weight > 0): few leaves, but extents up to 20 (static) / 40 (dynamic),
+        # texts up to 300 characters, up to 3000 elements per root object: item tables, size words and strings that
+        # cross 256 / 4096 / 65536 bytes.  Values of big arrays are drawn as a small pool repeated with a stride.
+        self.big_weight = 0
+        self.is_big = False
+        self.max_text = 12
         self.__dict__.update(kw)
+
+    def big(self):
+        c = Cfg.__new__(Cfg)
+        c.__dict__.update(self.__dict__)
+        c.max_static_dim, c.max_dyn_extent, c.max_elems = 20, 40, 3000
+        c.max_leaves = min(self.max_leaves, 5)
+        c.max_text, c.is_big, c.big_weight = 300, True, 0
+        return c
+
+
+def cfg_for(spec, cfg):
+    """the configuration the values of `spec` are drawn with (big types carry a marker on their root)"""
+    return cfg.big() if (isinstance(spec, dict) and spec.get("big") and not cfg.is_big) else cfg
 
 
 class _Namer:
@@ -196,9 +217,14 @@ class _Namer:
 @st.composite
 def type_specs(draw, cfg):
     namer = _Namer()
+    big = cfg.big_weight > 0 and draw(st.integers(0, cfg.big_weight - 1)) == 0
+    if big:
+        cfg = cfg.big()
     root = draw(st.sampled_from(cfg.roots))
     budget = [draw(st.integers(1, cfg.max_leaves))]
     spec = _draw_type(draw, cfg, namer, budget, 0, root, 1)
+    if big:
+        spec["big"] = 1
     return spec
 
 
@@ -318,7 +344,34 @@ def scalar_values(t):
 
 def dyn_extents(cfg):
     """runtime extents of dynamic dimensions: 0 included but not dominant"""
+    if cfg.is_big:
+        return st.one_of(st.sampled_from([0, 1, 9, 17, 33]), st.integers(0, cfg.max_dyn_extent))
     return st.one_of(st.sampled_from([0, 1, 1, 2, 2, 3]), st.integers(0, cfg.max_dyn_extent))
+
+
+_long_text = st.builds(
+    lambda unit, n, tail: (unit * n)[:n] + tail,
+    st.text(alphabet=st.one_of(st.characters(min_codepoint=32, max_codepoint=126), st.characters(blacklist_categories=["Cs"], blacklist_characters="\x00")), min_size=1, max_size=5),
+    st.sampled_from([13, 31, 100, 247, 248, 255, 256, 300]),
+    st.sampled_from(["", "", "\u00e9", "\U0001f600"]),
+)
+
+
+def texts(cfg):
+    """string values; big cases mix in long texts (sizes around the 8-byte grid near 256 included)"""
+    if cfg.is_big:
+        return st.one_of(_text, _long_text)
+    return _text
+
+
+def pooled(draw, n, draw_one):
+    """n values; beyond 12 they are a drawn pool of <= 6 values repeated with a stride (keeps Hypothesis' choice
+    sequence short for big arrays while neighbouring items still differ)"""
+    if n <= 12:
+        return [draw_one() for _ in range(n)]
+    pool = [draw_one() for _ in range(draw(st.integers(2, 6)))]
+    step = draw(st.sampled_from([1, 5, 7]))
+    return [pool[(i * step) % len(pool)] for i in range(n)]
 
 
 @st.composite
@@ -327,17 +380,18 @@ def values(draw, spec, cfg, nullable=True):
 
 
 def _draw_value(draw, spec, cfg):
+    cfg = cfg_for(spec, cfg)
     k = spec["k"]
     if k == "scalar":
         return draw(scalar_values(spec["t"]))
     if k == "string":
-        return draw(_text)
+        return draw(texts(cfg))
     if k == "struct":
         return {fn: _draw_value(draw, ft, cfg) for fn, ft in spec["fields"]}
     if k == "array":
         shape = [draw(dyn_extents(cfg)) if d is None else d for d in spec["shape"]]
         n = math.prod(shape)
-        return {"shape": shape, "flat": [_draw_value(draw, spec["item"], cfg) for _ in range(n)]}
+        return {"shape": shape, "flat": pooled(draw, n, lambda: _draw_value(draw, spec["item"], cfg))}
     if k == "ref":
         if draw(st.integers(0, 3)) == 0:
             return None
